@@ -221,7 +221,11 @@ func runC02(c *core.Ctx) {
 		isSel := hasCall(func(o *types.Func) bool { return o == sel.Obj })
 		// target: propagateChanges call, or a Copy() of a route that is later passed as the NEW route
 		isProp := hasCall(func(o *types.Func) bool { return o == prop.Obj })
-		bad := core.PathAvoidingFrom(g, hasCall(muts), isSel, isProp)
+		bad, started := core.PathAvoidingFromS(g, hasCall(muts), isSel, isProp)
+		if !started {
+			c.Undecided("selection-before-propagation", f.Name(), f.Decl.Pos(), "table mutation not found in the control-flow graph")
+			continue
+		}
 		var at token.Pos = f.Decl.Pos()
 		if len(bad) > 0 {
 			at = bad[0].Pos()
